@@ -67,13 +67,13 @@ def run(ctx):
         return
     import props.c14 as c14
     streams = {}
-    ec = S.expr_cases(ctx, 1500 if q else 40000, 400 if q else 10000, 100 if q else 3000, 100 if q else 3000, 100 if q else 3000)
+    ec = S.expr_cases(ctx, 1500 if q else 200000, 400 if q else 50000, 100 if q else 15000, 100 if q else 15000, 100 if q else 15000)
     streams["eval"] = [C.hexs(e) + "\t" + G.rand_doc(rng, 3) for _, e in ec]
     streams["parse"] = [C.hexs(e) for _, e in ec[: len(ec) // 2]]
     sc = []
-    for _ in range(800 if q else 20000):
+    for _ in range(800 if q else 100000):
         sc.append("ser\t" + " ".join(c14.rnd_sval(rng, rng.choice([1, 2, 3]), keys_ok=True).split()))
-    for _ in range(800 if q else 20000):
+    for _ in range(800 if q else 100000):
         ti = rng.randrange(len(c14.TYPES))
         v = c14.conforming(rng, c14.TYPES[ti])
         if rng.random() < 0.4:
@@ -82,7 +82,7 @@ def run(ctx):
         if c14.balanced(v):
             sc.append("de\t%d\t%s" % (ti, v))
     streams["serde"] = sc
-    tj = tojm_cases(rng, 600 if q else 20000)
+    tj = tojm_cases(rng, 600 if q else 100000)
     streams["tojm"] = [k + "\t" + d for k, d in tj]
     if getattr(ctx, "replay", None):
         streams = {ctx.replay["stream"]: [ctx.replay["case"]]}
